@@ -4,6 +4,7 @@ import json
 import os
 import py_compile
 import random
+import re
 import shutil
 from concurrent.futures import ThreadPoolExecutor
 
@@ -21,14 +22,16 @@ def abstract_fs(case, ids):
             return 'absent'
         return ids.setdefault(snap[rel], 'c%d' % len(ids))
     fs = {}
+    smap = gl.script_map(case)
     for k, name in case['names'].items():
+        refname = (gl.lookup(smap, name) or {}).get('ref', os.path.basename(name))
         if name.startswith('$TMPDIR/'):
             # lives in a temporary directory that changes from run to run: not observed (the model's value is assumed)
             fs[k] = case.get('assumed', {}).get(k, 'absent')
-            fs['ref:' + k] = cid(os.path.join('ref', 'job', os.path.basename(name)))
+            fs['ref:' + k] = cid(os.path.join('ref', 'job', refname))
             continue
         fs[k] = cid(name)
-        fs['ref:' + k] = cid(os.path.join('ref', 'job', name))
+        fs['ref:' + k] = cid(os.path.join('ref', 'job', refname))
     fs['in1'] = cid('keepme.cfg')
     fs['in2'] = cid(os.path.join('sub', 'nested.dat'))
     fs['script'] = 'script-text' if 'test_job.py' in snap and snap['test_job.py'] != case.get('stale_script_sha') else cid('test_job.py')
@@ -60,7 +63,7 @@ def verdicts(case, res):
     v = {}
     tmap = gl.script_test_map(case)
     for k, name in case['names'].items():
-        v[k] = res.get(tmap.get(os.path.basename(name), gl.test_name_for(name)), 'missing')
+        v[k] = res.get(gl.lookup(tmap, name, gl.test_name_for(name)), 'missing')
     if not case['no_stdout']:
         v['STDOUT'] = res.get('test_stdout', 'missing')
     if not case['no_stderr']:
@@ -78,7 +81,7 @@ def one_session(args):
     case = gl.make_case(rnd, wd, shape, tmpdir_tokens_with_one_iteration=(nperturb == 0), dated_first_line=dated)
     ids = {}
     events = []
-    detail = {'tid': tid, 'shape': shape, 'names': case['names'], 'flags': case['flags'], 'refs': case['refs'], 'pre': case['pre'], 'script': case['script'],
+    detail = {'tid': tid, 'shape': shape, 'names': case['names'], 'command_arguments': case.get('cmd_args', ''), 'flags': case['flags'], 'refs': case['refs'], 'pre': case['pre'], 'script': case['script'],
               'behaviour': case['beh'], 'wd': wd}
     if os.path.exists(os.path.join(wd, 'test_job.py')):
         case['stale_script_sha'] = gl.sha(os.path.join(wd, 'test_job.py'))
@@ -125,7 +128,7 @@ def one_session(args):
         fsx, _ = abstract_fs(case, ids)
         v = verdicts(case, res)
         tmap = gl.script_test_map(case)
-        mapped = {tmap.get(os.path.basename(n), gl.test_name_for(n)) for n in case['names'].values()} | {'test_stdout', 'test_stderr', 'test_exit_code'}
+        mapped = {gl.lookup(tmap, n, gl.test_name_for(n)) for n in case['names'].values()} | {'test_stdout', 'test_stderr', 'test_exit_code'}
         other = res.get('test_no_exception', 'missing') == 'pass' and all(v_ == 'pass' for t_, v_ in res.items() if t_ not in mapped)
         if not other:
             detail['unexpected_tests'] = {t_: v_ for t_, v_ in res.items() if t_ not in mapped}
@@ -171,10 +174,7 @@ def one_session(args):
             else:
                 i = rnd.randrange(len(spec['bytes']))
                 old = spec['bytes'][i]
-                # a byte change that is not a mere swap of line terminators
                 new = (old + 1) % 256
-                if {old, new} <= {10, 13}:
-                    new = (old + 7) % 256
                 spec['bytes'][i] = new
                 what = 'byte %d changed %d -> %d' % (i, old, new)
         elif t == 'STDOUT' and kind_ == 'tokenline':
@@ -190,7 +190,7 @@ def one_session(args):
             beh['stderr'] = gl.edit_first_line(beh['stderr'], rnd)
             what = 'stderr edited'
         else:
-            beh['exit'] = 3 if beh['exit'] == 0 else 0
+            beh['exit'] = 3 if beh['exit'] == 0 else rnd.choice([0, 4, 4, 1])      # also from one failure status to another
             what = 'exit status changed'
         gl.set_behaviour(case, beh)
         events.append({'tid': tid, 'ev': 'Perturb', 'raised': 'none', 'target': t, 'what': what, 'beh': beh_abstract(case, beh, ids)})
@@ -203,7 +203,7 @@ def one_session(args):
     return events, detail
 
 
-SHAPES = {'': [], 'o1': ['o1'], 'o2': ['o2'], 'o1o2': ['o1', 'o2'], 'o1o3': ['o1', 'o3'], 'o1o4': ['o1', 'o4']}
+SHAPES = {'': [], 'o1': ['o1'], 'o2': ['o2'], 'o1o2': ['o1', 'o2'], 'o1o3': ['o1', 'o3'], 'o1o4': ['o1', 'o4'], 'o1o5': ['o1', 'o5']}
 
 
 def script_passes_signature(e, det):
@@ -235,7 +235,7 @@ def run_sessions(chk, seed, nsessions, nperturb, clauses, kind):
     rnd = random.Random(seed)
     tasks = []
     for tid in range(nsessions):
-        shape = rnd.choice(['', 'o1', 'o1', 'o2', 'o1o2', 'o1o2', 'o1o3', 'o1o4'])
+        shape = rnd.choice(['', 'o1', 'o1', 'o2', 'o1o2', 'o1o2', 'o1o3', 'o1o4', 'o1o5'])
         tasks.append((rnd.randrange(10**9), tid, root, SHAPES[shape], nperturb))
     with ThreadPoolExecutor(14) as ex:
         results = list(ex.map(one_session, tasks))
@@ -328,6 +328,10 @@ def run_sessions(chk, seed, nsessions, nperturb, clauses, kind):
                     if prev[-1]['target'] == 'o2':
                         name = [n for n, sp in det['behaviour']['files'].items() if sp and sp['kind'] == 'binary']
                         sig['binary_ext'] = os.path.splitext(name[0])[1] if name else ''
+                        m_ = re.match(r'byte \d+ changed (\d+) -> (\d+)', prev[-1]['what'])
+                        # bytes that str.splitlines treats as line ends when the file is read as ISO-8859-1 text
+                        seps = {0x0a, 0x0b, 0x0c, 0x0d, 0x1c, 0x1d, 0x1e, 0x85}
+                        sig['line_separator_swap'] = bool(m_ and int(m_.group(1)) in seps and int(m_.group(2)) in seps)
                 chk.violation(sig, {'case': {k: v for k, v in det.items() if k != 'wd'}, 'event': e,
                                     'previous_perturbation': prev[-1] if prev else None,
                                     'how': 'python -m tdda.referencetest.gentest in a scratch directory; generated test run with '
